@@ -343,7 +343,7 @@ def execute(case):
 
     def on_step(w, a, op, outcome, exc):
         # restart idiom: the loaded twins are driven in lock step with their original
-        if op["op"] == "copy":
+        if op["op"] == "copy" or op["op"].startswith("d_"):
             return
         for twin, fmt in ctx.twins.get(a, []):
             O.apply_op(kind, twin, op)
